@@ -1,5 +1,6 @@
 import Driver.Enc
 import Driver.Crdt
+import Driver.Fault
 
 partial def loop (h : IO.FS.Stream) (out : IO.FS.Stream) (f : List String → String) : IO Unit := do
   let line ← h.getLine
@@ -21,5 +22,6 @@ def main (args : List String) : IO UInt32 := do
   let stdout ← IO.getStdout
   match args with
   | ["enc"] => loop stdin stdout Driver.Enc.step; return 0
+  | ["fault"] => loop stdin stdout Driver.Fault.step; return 0
   | ["crdt"] => loopS stdin stdout Driver.Crdt.step ({} : Driver.Crdt.World); return 0
   | _ => IO.eprintln "usage: drv <engine>"; return 2
